@@ -76,7 +76,7 @@ def build(spec):
 
 
 def model_specs(tier, seed):
-    n = 26 if tier == "quick" else 150
+    n = 60 if tier == "quick" else 400
     specs = [["hand", h] for h in HAND]
     k = seed * 10000
     got = 0
@@ -140,6 +140,8 @@ def run_case(spec, sol_kind, fva_kind):
     quiet()
     from cobra.flux_analysis import flux_variability_analysis
     from cobra.util.solver import linear_reaction_coefficients
+    import cobra
+    cobra.Configuration().processes = 1   # the summaries call FVA with the configured default; no pool per summary here
     fails = {}
     m = build(spec)
     what = f"model {spec}, solution={sol_kind}, fva={fva_kind}"
